@@ -5539,6 +5539,10 @@ def symlink_to_bytes(symlink_target):
         else:
             symlink_data.extend(b'\x05')
             ostaname = _ostaunicode(comp)
+            if len(ostaname) > 255:
+                # The length of a component identifier is recorded in a
+                # single byte.
+                raise pycdlibexception.PyCdlibInvalidInput('A component of the UDF symlink target is too long')
             symlink_data.append(len(ostaname))
             symlink_data.extend(b'\x00\x00')
             symlink_data.extend(ostaname)
